@@ -5,7 +5,10 @@
    (Spec/MsgWriterS.v) evaluated on the implementation's output. *)
 From QV Require Import Spec.MsgWriterS.
 From QV Require Import Base.ListX Model.MsgWriter Proofs.MsgWriterP Proofs.MsgWriterScanP
-     Proofs.MsgWriterNameP Proofs.MsgWriterInvP Proofs.MsgWriterTopP.
+     Proofs.MsgWriterNameP Proofs.MsgWriterInvP Proofs.MsgWriterTopP Proofs.MsgWriterClosP
+     Proofs.MsgWriterNameSP Proofs.MsgWriterLayP Proofs.MsgWriterOpP Proofs.MsgWriterStepP
+     Proofs.MsgWriterMsgP Proofs.MsgWriterDecP Proofs.MsgWriterHdrP Proofs.MsgWriterGetP Proofs.MsgWriterRtP.
+From QV Require Import Spec.MsgWriterAbsS.
 
 (* For EVERY operation sequence from a fresh writer, the state satisfies
    HEADER_SIZE <= rr_start <= cursor <= available, available + reservations = limit <= |buffer|. *)
@@ -64,6 +67,119 @@ Theorem c12_ext_rcode_kept :
   opt_ttl_of (run_writer (repeat 0%N 40) 40 (xrc_ops 2048)) = Some [128; 0; 0; 0]%N.
 Proof. exact fixed_keeps_xrcode. Qed.
 
+(* EVERY operation of the operation language (header setters, add_question, add_*_rr, add_*_rrset
+   with every hint kind, set_limit, set_compression_mode, set_edns, set_tsig/update_time_signed
+   (Unsigned), clear_rrs, templates, getters), run on ANY state satisfying the full invariant [AInv]
+   (numeric invariant + anchor invariant + the ghost names the anchors and hint-vector slots stand
+   for) with well-formed arguments and a hint obeying the API contract ([op_contract]: the slot /
+   anchor the hint designates was issued for a name equal, modulo ASCII case, to the one given),
+   returns Ok or Err -- never Panic -- and re-establishes the invariant. *)
+Theorem c12_ops_never_panic : forall d g L o, AInv d g L -> op_wf o -> op_contract d g o ->
+  match step d o with
+  | Ok (d', r) => exists L', AInv d' (gstep d g o r) L'
+  | _ => False
+  end.
+Proof. exact step_ok_all. Qed.
+
+(* [Writer::new] establishes the invariant; whole runs obeying the contract do not panic, finish
+   included (finish's two `.unwrap()`s on the OPT and TSIG records are safe because the reserved
+   space suffices). *)
+Theorem c12_run_never_panics : forall buf limit w0 ops, writer_new buf limit = Ok w0 ->
+  run_contract (mkD w0 []) g0 ops -> exists rr, run_writer buf limit ops = Ok rr.
+Proof. exact run_writer_never_panics. Qed.
+
+(* No spurious truncation: a record / RRset / question operation fails with Truncation only if
+   its UNCOMPRESSED encoding does not fit between the cursor and the available space. *)
+Theorem c12_no_spurious_truncation_rr : forall d g L s h n ty cl ttl rd vec d',
+  AInv d g L -> wf_name n -> wf_bytes rd -> hs_contract (d_regs d) g h n ->
+  step d (OAddRr s h n ty cl ttl rd vec) = Ok (d', RErr Truncation) ->
+  w_avail (d_w d) < w_cursor (d_w d) + length (nm_wire n) + 10 + length rd.
+Proof. exact rr_no_spurious. Qed.
+
+Theorem c12_no_spurious_truncation_rrset : forall d g L s h n ty cl ttl rds vec d',
+  AInv d g L -> wf_name n -> Forall wf_bytes rds -> hs_contract (d_regs d) g h n ->
+  step d (OAddRrset s h n ty cl ttl rds vec) = Ok (d', RErr Truncation) ->
+  w_avail (d_w d) < w_cursor (d_w d) + rds_size n rds.
+Proof. exact rrset_no_spurious. Qed.
+
+Theorem c12_no_spurious_truncation_question : forall d g L n qt qc d',
+  AInv d g L -> wf_name n ->
+  step d (OAddQuestion n qt qc) = Ok (d', RErr Truncation) ->
+  w_avail (d_w d) < w_cursor (d_w d) + length (nm_wire n) + 4.
+Proof. exact question_no_spurious. Qed.
+
+(* Every operation preserves, together with [AInv], the LAYOUT invariant [LInv]: the octets of
+   [12, rr_start) are the questions and those of [rr_start, cursor) the records of the abstract message
+   [astep ... ] denoted by the operations that succeeded (Spec/MsgWriterAbsS.v), in order, section by
+   section, with the section counters equal to the list lengths; every name chunk is the plain wire
+   form or leading labels + one pointer into the label starts of the layout. *)
+Theorem c12_layout_invariant_all_ops : forall d g y A L o, AInv d g L -> LInv d y A L -> op_wf o ->
+  op_contract d g o ->
+  match step d o with
+  | Ok (d', r) => exists L' y', AInv d' (gstep d g o r) L' /\ LInv d' y' (astep A o r) L'
+  | _ => False
+  end.
+Proof. exact step2_all. Qed.
+
+(* MESSAGE-LEVEL ROUND TRIP: decode(finish(run ops)) = abs(ops).  For every operation sequence obeying
+   the hint contract, with arguments of the sizes the Rust types enforce ([op_wf], [op_wf2], [op_wf3]):
+   the run does not panic and the independent RFC 1035 decoder of Spec/MsgWriterS.v, applied to the
+   finished message, succeeds and returns
+   - the header id, QR, opcode, AA, TC, RD, RA, zero Z bits and RCODE of the header settings denoted by
+     the operations ([hreplay], [hdr_rel]);
+   - in order, the questions and the answer / authority / additional records of the abstract message
+     of the operations that succeeded ([areplay]): owner names and names inside RDATA equal exactly
+     when written in case-preserving / disabled mode and modulo ASCII case otherwise ([name_rel]), type,
+     class, TTL (clamped per RFC 2181 s.8), RDATA octets, and the compressible/uncompressible
+     classification of every RDATA name;
+   - then, in the additional section, the OPT pseudo-record (class = UDP size, TTL = upper bits of the
+     extended RCODE << 24: the value of the last successful set_extended_rcode, reset by set_rcode) and
+     the unsigned TSIG record of the settings denoted by the operations ([pseudo_of]);
+   and the decoded message passes the specification's pointer-rule checker ([ptr_ok], see C13). *)
+Theorem c12_roundtrip : forall buf limit w0 ops, writer_new buf limit = Ok w0 ->
+  run_contract (mkD w0 []) g0 ops -> Forall op_wf ops -> Forall op_wf2 ops -> Forall op_wf3 ops ->
+  exists rr, run_writer buf limit ops = Ok rr /\
+    match rr_final rr with
+    | Some (len, b) =>
+      exists m, decode_msg (firstn len b) = Some m /\
+        hdr_rel (hreplay ah0 ops (rr_outcomes rr)) m /\
+        Forall2 q_rel (am_qs (areplay am0 ops (rr_outcomes rr))) (m_qs m) /\
+        Forall2 (rr_rel xparts) (am_an (areplay am0 ops (rr_outcomes rr))) (m_an m) /\
+        Forall2 (rr_rel xparts) (am_ns (areplay am0 ops (rr_outcomes rr))) (m_ns m) /\
+        Forall2 (rr_rel xparts)
+          (am_ar (areplay am0 ops (rr_outcomes rr)) ++
+           pseudo_of (am_mode (areplay am0 ops (rr_outcomes rr))) (hreplay ah0 ops (rr_outcomes rr)))
+          (m_ar m) /\
+        ptr_ok (firstn len b) m (am_qs (areplay am0 ops (rr_outcomes rr))) (am_an (areplay am0 ops (rr_outcomes rr)))
+          (am_ns (areplay am0 ops (rr_outcomes rr)))
+          (am_ar (areplay am0 ops (rr_outcomes rr)) ++
+           pseudo_of (am_mode (areplay am0 ops (rr_outcomes rr))) (hreplay ah0 ops (rr_outcomes rr)))
+    | None => True
+    end.
+Proof. exact roundtrip_full. Qed.
+
+(* The header octets and the EDNS / TSIG fields of the writer are, after every operation, those of the
+   abstract header settings ([HInv]); bit fields by exhaustive sweeps over the 256 octet values. *)
+Theorem c12_header_invariant : forall d H o d' r, Inv_n (d_w d) -> HInv (d_w d) H -> op_wf3 o ->
+  step d o = Ok (d', r) -> HInv (d_w d') (hstep H o r).
+Proof. exact hstep_ok. Qed.
+
+(* The getters (id, QR, opcode, AA, TC, RD, RA, RCODE, extended RCODE, QD/AN/NS/ARCOUNT), at any point of
+   a contract-obeying run, return the values denoted by the operations that succeeded so far. *)
+Theorem c12_getters : forall buf limit w0 ops d outs, writer_new buf limit = Ok w0 ->
+  run_contract (mkD w0 []) g0 ops -> Forall op_wf3 ops ->
+  run (mkD w0 []) ops = Ok (d, outs, true) ->
+  let A := areplay am0 ops outs in let H := hreplay ah0 ops outs in
+  getters (d_w d) =
+    Ok (expected_get H (N.of_nat (length (am_qs A))) (N.of_nat (length (am_an A))) (N.of_nat (length (am_ns A)))
+          (N.of_nat (length (am_ar A)) + (if h_edns H then 1 else 0) + (if h_tsig H then 1 else 0))%N).
+Proof. exact getters_run. Qed.
+
+(* The component table regenerated from the Rust source is the RFC layout of the specification. *)
+Theorem c12_component_table_is_rfc_layout : forall cl ty, layout cl ty = map sf_of (component_types cl ty).
+Proof. exact layout_table. Qed.
+
+(* Non-vacuity of the contract-threaded run: the example run below obeys it. *)
 (* Non-vacuity: a concrete run in which a question is written, a record compresses its owner
    against the QNAME and its RDATA against the owner, and a too-large record fails and is
    rolled back; the state after the question satisfies the hypotheses of the name theorems. *)
@@ -89,6 +205,34 @@ Example c12_judge_example :
   end.
 Proof. vm_compute. reflexivity. Qed.
 
+Example c12_contract_example :
+  match writer_new (repeat 170%N 64) 64 with
+  | Ok w0 => run_contract (mkD w0 []) g0 ex_ops
+  | _ => False
+  end.
+Proof.
+  vm_compute. repeat split; try (repeat constructor; fail); try lia.
+  all: try (intros _ m E; inversion E; subst; repeat constructor).
+  all: try (intros m E; inversion E; subst; repeat constructor).
+  all: try (intros _; exact I).
+Qed.
+
+Example c12_wf_example : Forall op_wf ex_ops /\ Forall op_wf2 ex_ops /\ Forall op_wf3 ex_ops.
+Proof.
+  split; [|split]; repeat constructor; simpl; try lia; try (apply wf_bytesb_spec; reflexivity).
+Qed.
+
+(* the invariants are satisfiable: a fresh writer satisfies all three *)
+Example c12_invariants_nonvacuous :
+  match writer_new (repeat 170%N 64) 64 with
+  | Ok w0 => AInv (mkD w0 []) g0 L0 /\ LInv (mkD w0 []) y0 am0 L0 /\ HInv w0 ah0
+  | _ => False
+  end.
+Proof.
+  destruct (writer_new (repeat 170%N 64) 64) as [w0| |] eqn:E; [|vm_compute in E; discriminate..].
+  split; [eapply AInv_new; eauto|]. split; [eapply LInv_new; eauto|eapply HInv_new; eauto].
+Qed.
+
 Print Assumptions c12_invariant.
 Print Assumptions c12_limit.
 Print Assumptions c12_atomic.
@@ -97,3 +241,13 @@ Print Assumptions c12_unhinted_names_roundtrip_partial.
 Print Assumptions c12_exact_is_equal.
 Print Assumptions c12_ext_rcode_refuted_prefix.
 Print Assumptions c12_ext_rcode_kept.
+Print Assumptions c12_ops_never_panic.
+Print Assumptions c12_run_never_panics.
+Print Assumptions c12_no_spurious_truncation_rr.
+Print Assumptions c12_no_spurious_truncation_rrset.
+Print Assumptions c12_no_spurious_truncation_question.
+Print Assumptions c12_layout_invariant_all_ops.
+Print Assumptions c12_roundtrip.
+Print Assumptions c12_header_invariant.
+Print Assumptions c12_component_table_is_rfc_layout.
+Print Assumptions c12_getters.
